@@ -68,6 +68,7 @@ inductive Out
   | ok                      -- `fit` / `update` returned self
   | err (e : Err)
   | ser (z : Series)
+  deriving DecidableEq
 
 /-- data that come from library code at `fit` time -/
 structure FitData where
